@@ -501,7 +501,9 @@ class OrderPolicy:
 
 
 class Explorer:
-    def __init__(self, ctx, faults: bool, track=GHOSTS, max_pending: int = 1):
+    def __init__(self, ctx, faults: bool, track=GHOSTS, max_pending: int = 1, exact: bool = False):
+        self.exact = exact   # every driven in-flight command is stepped in every tick (the real scheduler); default: at most one,
+        #                      possibly none (commands may stall - an over-approximation that is enough for K=1)
         self.ctx = ctx
         self.max_pending = max_pending   # user requests that may be accepted between two ticks (validated against the same state)
         self.b = RunStateBinding(ctx, faults, track)
@@ -603,6 +605,10 @@ class Explorer:
             d1["outs"] = "live"     # an executing UOD command writes an output tag
             bases.append(mk(d1))
         out = []
+        if self.exact:
+            for b in bases:
+                out += self._cmd_hook_exact(b)
+            return list(dict.fromkeys(out))
         for b in bases:
             d = sd(b)
             seqs = []
@@ -650,6 +656,61 @@ class Explorer:
                     if n in ("Pause", "Hold"):
                         out += self.step_cancel(b, n)
         return list(dict.fromkeys(out))
+
+    def _drive_rest(self, states, skip):
+        """Step every driven in-flight command that has not been stepped in this tick yet, in every order."""
+        import itertools
+        out = []
+        for st in states:
+            d = sd(st)
+            rest = [n for n in CONTROL if d[f"if_{n}"] is not None and n not in d["orph"] and n not in skip]
+            if not rest:
+                out.append(st)
+                continue
+            for perm in itertools.permutations(rest):
+                cur = [st]
+                for n in perm:
+                    nxt = []
+                    for c in cur:
+                        dc = sd(c)
+                        if dc[f"if_{n}"] is not None and n not in dc["orph"]:
+                            nxt += self.step_resume(c, n)
+                        else:
+                            nxt.append(c)     # cancelled by a command stepped earlier in this tick
+                    cur = nxt
+                out += cur
+        return list(dict.fromkeys(out))
+
+    def _cmd_hook_exact(self, b):
+        """CommandManager.tick as scheduled by execute_commands: requests that arrived since the last tick are moved to the
+        front of the executing list (the newest first), then every executing request steps its command once."""
+        d = sd(b)
+        out = []
+        method_cmds = [n for n in CONTROL if d["msched"] and (d[f"if_{n}"] is None or n in d["orph"])]
+        p, p2 = d["pend"], d.get("pend2")
+        d2 = dict(d)
+        d2["pend"] = None
+        if "pend2" in d2:
+            d2["pend2"] = None
+        b2 = mk(d2)
+        for m in [None] + method_cmds:
+            new = [x for x in (m, p2, p) if x is not None]          # newest first: method request, second user request, first
+            if p is not None and p2 is not None and self.policy.precedes(p, p2):
+                new = [x for x in (m, p, p2) if x is not None]
+            early = [n for n in CONTROL if p is not None and n not in new and d2[f"if_{n}"] is not None and n not in d2["orph"]
+                     and self.policy.precedes(n, p)]
+            cur = [b2]
+            for n in early:
+                cur = [t for c in cur for t in (self.step_resume(c, n) if sd(c)[f"if_{n}"] is not None else [c])]
+            for n in new:
+                cur = [t for c in cur for t in self.step_any(c, n)]
+            out += self._drive_rest(cur, set(new) | set(early))
+        if p is None:
+            # a user may cancel a timed Pause / Hold through its run-log item instead of letting it step
+            for n in ("Pause", "Hold"):
+                if d[f"if_{n}"] is not None and n not in d["orph"]:
+                    out += self._drive_rest(self.step_cancel(b2, n), {n})
+        return out
 
     def _age(self, pre, post):
         """Ghost rule for C09 (applied at tick granularity)."""
@@ -748,3 +809,37 @@ def show(s) -> str:
     return (f"started={d['started']} paused={d['paused']} holding={d['holding']} stopping={d['stopping']} sys={d['sys']} "
             f"run_id={d['run_id']} status={d['mstatus']} prev={d['prev']} outs={d['outs']} hw={d['hw']} clk={d['clk']} "
             f"inflight={infl} pend={d['pend']}")
+
+
+class Explorers:
+    """Union of several explorations of the same machine (different request bounds / schedulers). States of the first
+    exploration come first, so a finding is reported with the shortest history the coarsest exploration has for it."""
+
+    def __init__(self, *exs: Explorer):
+        self.exs = exs
+        self.reach: dict = {}
+        self.owner: dict = {}
+
+    def explore(self):
+        r = None
+        for e in self.exs:
+            x = e.explore()
+            r = r if r is not None else x
+            for st, v in e.reach.items():
+                if st not in self.reach:
+                    self.reach[st] = v
+                    self.owner[st] = e
+        return r
+
+    @property
+    def edges(self):
+        return sum(e.edges for e in self.exs)
+
+    def trace(self, st, *a, **k):
+        return self.owner.get(st, self.exs[0]).trace(st, *a, **k)
+
+    def step_resume(self, st, name):
+        return self.owner.get(st, self.exs[0]).step_resume(st, name)
+
+    def __getattr__(self, name):
+        return getattr(self.exs[0], name)
